@@ -9,7 +9,7 @@ PROPS = {
                  "_find_last_non_space_char) return the maximal identifier-character run / nearest non-blank position, with termination measures. "
                  "simplify.real_code keeps the length of the text (every offset found in the simplified text is an offset of the source), given what the regex scans return "
                  "(assumed, checked natively); the logical lines returned by _CustomGenerator.__call__ are increasing, disjoint ranges inside the text that start on a non-blank line and "
-                 "cover every non-blank line, whatever the per-line scan decides (termination included), and CachingLogicalLineFinder.logical_line_in returns exactly the range containing the line "
+                 "cover every non-blank line, whatever the per-line scan decides (termination included), and CachingLogicalLineFinder.logical_line_in returns exactly the range containing the line and generate_starts yields exactly the marked lines of an interval "
                  "(given marks that come from such a partition: the cache initialiser is checked natively only). Tokenizer-agreement clauses (ignored regions, logical lines, primaries) are exhaustive small-scope stand-ins only.",
         "note": "bisect.bisect assumed to be bisect_right on sorted input (external contract); str.index modelled by its defining property; "
                 "characters as code points; termination of the while loop not proved.",
